@@ -830,10 +830,24 @@ func (m *Mint) MeltTokens(ctx context.Context, meltTokensRequest nut05.PostMeltB
 	mintQuote, err := m.db.GetMintQuoteByPaymentHash(meltQuote.PaymentHash)
 	if err == nil {
 		m.logDebugf("quotes '%v' and '%v' have same invoice so settling them internally", meltQuote.Id, mintQuote.Id)
-		meltQuote, err = m.settleQuotesInternally(mintQuote, meltQuote)
+		var settledQuote storage.MeltQuote
+		settledQuote, err = m.settleQuotesInternally(mintQuote, meltQuote)
 		if err != nil {
+			// if the invoice could not be retrieved from the backend, nothing has been settled.
+			// Set the quote back to unpaid and remove the proofs from pending so the
+			// melt can be tried again. Otherwise they would be stuck as pending.
+			cashuErr, ok := err.(*cashu.Error)
+			if ok && cashuErr.Code == cashu.LightningBackendErrCode {
+				if dbErr := m.db.UpdateMeltQuote(meltQuote.Id, "", nut05.Unpaid); dbErr != nil {
+					m.logErrorf("could not set melt quote '%v' to unpaid: %v", meltQuote.Id, dbErr)
+				}
+				if dbErr := m.db.RemovePendingProofs(Ys); dbErr != nil {
+					m.logErrorf("could not remove pending proofs for quote '%v': %v", meltQuote.Id, dbErr)
+				}
+			}
 			return storage.MeltQuote{}, err
 		}
+		meltQuote = settledQuote
 		err := m.db.RemovePendingProofs(Ys)
 		if err != nil {
 			errmsg := fmt.Sprintf("error removing pending proofs: %v", err)
